@@ -520,9 +520,10 @@ RULE = {
            "unlimited: can_parse (shipped, and with scanner/host shortcuts declining) must equal parse success of the base "
            "then the input. Non-trivial: a decline fired; distinct = distinct (input, base).",
     "C13": "seeded plans of 1-6 real threads under the serialising scheduler (uniform, PCT, herd-at-CAS, winner-stall, round "
-           "robin), racing the first use of the Unicode tables and the global limit; faults: table allocation failure, bounded "
-           "stall, spin-clock jump. Non-trivial: the initialisation protocol ran (mode a) or limit stores interleaved with "
-           "calls (mode b); distinct = distinct (operations, shared-state schedule signature) pairs.",
+           "robin), racing the first use of the Unicode tables, the global limit and (cold-process batch: worker processes replaced "
+           "after two runs) the first use of the rest of the API (URLPattern, C API, search params); faults: table allocation "
+           "failure, bounded stall, spin-clock jump. Non-trivial: the initialisation protocol ran (mode a) or limit stores "
+           "interleaved with calls (mode b); distinct = distinct (operations, shared-state schedule signature) pairs.",
     "C18": "the same seeds executed in each supported x86-64 build; per-run observation hashes must agree. Non-trivial: all runs; "
            "distinct = distinct op text.",
 }
@@ -684,7 +685,9 @@ ASSUME = {
     "C09": ["the library under no limit is the executable reference for 'behaves exactly as with no limit'",
             "get_origin() is outside the statement (not a URL handed out)"],
     "C13": ["ThreadSanitizer's happens-before model stands in for weak-memory executions", "std::bad_alloc from container growth "
-            "is not injected", "schedule points are the hook sites plus operation boundaries; code between two sites runs atomically"],
+            "is not injected", "schedule points are the hook sites, operation boundaries, every 8-/32-bit atomic access (TSan build) and every wait "
+            "on a mutex / call_once / static guard; code between two of them runs atomically", "races inside libstdc++'s std::ctype<char> "
+            "narrow/widen caches (std::regex, the trusted regex provider) are suppressed by function name"],
     "C14": ["libstdc++ std::regex is the regex provider (trusted base; patterns restricted to ASCII + percent escapes)"],
     "C15": ["decides the sentence 'shortcuts, default-port elision and base-URL inheritance never change the outcome'; the slow "
             "canonicaliser is the reference for the shortcuts, two equivalent constructions of the same library for the other two"],
